@@ -1,7 +1,224 @@
-//! Lane `hostile` (stub).
-use crate::out::Out;
+//! Lane `hostile` (C11, decoder level): arbitrary and mutated server bytes through the real frame
+//! decoder (`verif_decode`), compared with Model.Envelope.decodeInner; oracles: no panic, an
+//! outer-complete frame is decided, clearly malformed envelopes are rejected.
+use crate::fmtx::*;
+use crate::gen::*;
+use crate::lanes::ber::{real_encode, spec_enc};
+use crate::out::{guarded, Out};
 use crate::rng::Rng;
+use bytes::BytesMut;
+use ldap3::controls::Control;
+use lber::structure::{StructureTag, PL};
+use lber::structures::Tag;
 
-pub fn run(_thorough: bool, _rng: Rng, out: Out) {
-    out.finish("stub lane: nothing generated yet");
+pub fn ctrls_text_real(cs: &[Control]) -> String {
+    let parts: Vec<String> = cs
+        .iter()
+        .map(|c| {
+            format!(
+                "{}:{}:{}:{}",
+                hex(c.1.ctype.as_bytes()),
+                if c.1.crit { 1 } else { 0 },
+                match &c.1.val { Some(v) => hex(v), None => String::from("none") },
+                match c.0 { Some(t) => format!("{:?}", t), None => String::from("-") }
+            )
+        })
+        .collect();
+    format!("[{}]", parts.join(","))
+}
+
+/// run the real decoder once on `bs`; canonical outcome + bytes consumed
+pub fn decode_outcome(bs: &[u8]) -> String {
+    let input = bs.to_vec();
+    match guarded(move || {
+        let mut buf = BytesMut::from(&input[..]);
+        let before = buf.len();
+        match ldap3::verif::verif_decode(&mut buf) {
+            Ok(None) => {
+                if buf.len() != before { String::from("needmore-but-consumed") } else { String::from("needmore") }
+            }
+            Err(_) => String::from("error"),
+            Ok(Some((id, (tag, ctrls)))) => {
+                let t = match tag {
+                    Tag::StructureTag(t) => tlv(&t),
+                    _ => String::from("(non-structure)"),
+                };
+                format!("frame {} {} {} consumed={}", id, t, ctrls_text_real(&ctrls), before - buf.len())
+            }
+        }
+    }) {
+        Ok(s) => s,
+        Err(_) => String::from("panic"),
+    }
+}
+
+/// independent reading of the outer header (X.690): Some(total length) if identifier and length
+/// octets are present and definite with at most 8 length octets
+pub fn outer_total(bs: &[u8]) -> Option<usize> {
+    if bs.len() < 2 {
+        return None;
+    }
+    let l = bs[1];
+    if l < 0x80 {
+        return Some(2 + l as usize);
+    }
+    let k = (l & 0x7f) as usize;
+    if k > 8 || bs.len() < 2 + k {
+        return None;
+    }
+    let mut n: u128 = 0;
+    for b in &bs[2..2 + k] {
+        n = (n << 8) | *b as u128;
+    }
+    if n > (1 << 40) {
+        return None;
+    }
+    Some(2 + k + n as usize)
+}
+
+fn clearly_not_envelope(t: &StructureTag) -> bool {
+    // strict subset of "not an LDAPMessage": outer primitive, wrong tag number, fewer than two
+    // elements, first element not a primitive universal INTEGER, controls [0] primitive
+    if t.id != 16 {
+        return true;
+    }
+    match &t.payload {
+        PL::P(_) => true,
+        PL::C(ks) => {
+            if ks.len() < 2 {
+                return true;
+            }
+            let first_ok = cls_num(ks[0].class) == 0 && ks[0].id == 2 && matches!(ks[0].payload, PL::P(_));
+            let last = &ks[ks.len() - 1];
+            let ctl_prim = cls_num(last.class) == 2 && last.id == 0 && matches!(last.payload, PL::P(_));
+            (ks.len() == 2 && !first_ok) || ctl_prim
+        }
+    }
+}
+
+fn case(out: &mut Out, label: &str, bs: &[u8], tree: Option<&StructureTag>) {
+    let got = decode_outcome(bs);
+    let h = hex(bs);
+    out.case(&h, bs.len() >= 2);
+    out.stat(&format!("{}.{}", label, got.split(' ').next().unwrap_or("?")));
+    if bs.len() <= 3000 {
+        out.m(&format!("env.dec {}", h), &got);
+    }
+    let short = if h.len() > 160 { format!("{}…({} bytes)", &h[..160], bs.len()) } else { h.clone() };
+    out.r(&format!("hostile.no-panic {} {}", label, short), got != "panic" && got != "needmore-but-consumed", &got);
+    if let Some(total) = outer_total(bs) {
+        if bs.len() >= total {
+            out.r(&format!("hostile.outer-complete-decided {} {}", label, short), got != "needmore", "frame complete by its outer length but decoder waits for more");
+        }
+    }
+    if let Some(t) = tree {
+        if clearly_not_envelope(t) {
+            out.r(&format!("hostile.non-envelope-rejected {} {}", label, short), got == "error", &got);
+        }
+    }
+}
+
+pub fn run(thorough: bool, mut rng: Rng, mut out: Out) {
+    // corpus: witnesses of F1..F5
+    for w in ["3000", "300702010161020a05", "300c02010161070a010004000400a0073005040131010 0", "30"] {
+        let w: String = w.chars().filter(|c| *c != ' ').collect();
+        case(&mut out, "corpus", &unhex(&w), None);
+    }
+    // controls with odd criticality / value shapes (F2)
+    for ctl in [
+        cons(0, 16, vec![prim(0, 4, b"1".to_vec()), prim(0, 1, vec![])]),
+        cons(0, 16, vec![prim(0, 4, b"1".to_vec()), cons(0, 1, vec![])]),
+        cons(0, 16, vec![prim(0, 4, b"1".to_vec()), prim(0, 4, vec![1]), prim(0, 4, vec![2])]),
+        cons(0, 16, vec![prim(0, 4, b"1".to_vec()), prim(0, 1, vec![1]), cons(0, 4, vec![])]),
+        cons(0, 16, vec![prim(0, 4, vec![0xff, 0xfe])]),
+        cons(0, 16, vec![cons(0, 4, vec![])]),
+        cons(0, 16, vec![]),
+        prim(0, 16, vec![]),
+        cons(0, 16, vec![prim(0, 4, b"1".to_vec()), prim(0, 2, vec![1])]),
+        cons(0, 16, vec![prim(0, 4, b"1".to_vec()), prim(2, 1, vec![9]), prim(1, 4, vec![7])]),
+    ] {
+        let msg = cons(0, 16, vec![prim(0, 2, vec![1]), cons(1, 7, vec![prim(0, 10, vec![0]), prim(0, 4, vec![]), prim(0, 4, vec![])]), cons(2, 0, vec![ctl])]);
+        case(&mut out, "oddctl", &real_encode(&msg), Some(&msg));
+    }
+    // deep nesting: depth 1..N (the lber depth limit is 64)
+    let deep: &[usize] = if thorough { &[1, 30, 62, 63, 64, 65, 66, 100, 1000, 10000, 100000, 250000] } else { &[1, 62, 63, 64, 65, 66, 200, 5000, 100000] };
+    for &d in deep {
+        // d nested "30 84 xx xx xx xx" headers built by hand (no recursion in the generator)
+        let mut bs: Vec<u8> = vec![];
+        for i in 0..d {
+            let inner = (d - 1 - i) * 6;
+            bs.extend([0x30, 0x84]);
+            bs.extend((inner as u32).to_be_bytes());
+        }
+        let got = decode_outcome(&bs);
+        out.case(&format!("deep {}", d), true);
+        out.stat(&format!("deep.{}", got.split(' ').next().unwrap_or("?")));
+        if bs.len() <= 3000 {
+            out.m(&format!("env.dec {}", hex(&bs)), &got);
+        }
+        out.r(&format!("hostile.deep-nesting depth={}", d), got == "error", &got);
+    }
+    // (ii) every single-field mutation of valid messages
+    let nbase = if thorough { 400 } else { 40 };
+    for _ in 0..nbase {
+        let msg = gen_any_msg(&mut rng);
+        let enc = real_encode(&msg);
+        case(&mut out, "valid", &enc, Some(&msg));
+        for (name, m) in tree_mutations(&msg) {
+            let label = format!("tree.{}", name.split('@').next().unwrap_or("?").trim_end_matches(char::is_numeric));
+            let e = if rng.chance(1, 4) { spec_enc(&m, &mut rng, true) } else { real_encode(&m) };
+            case(&mut out, &label, &e, Some(&m));
+        }
+        // byte-level: each length/any octet mutated
+        for i in 0..enc.len().min(200) {
+            for v in [enc[i].wrapping_sub(1), enc[i].wrapping_add(1), 0x00, 0x80, 0x81, 0x84, 0x88, 0x89, 0xff, 0x7f] {
+                if v != enc[i] {
+                    let mut e = enc.clone();
+                    e[i] = v;
+                    case(&mut out, "byte.set", &e, None);
+                }
+            }
+            let mut e = enc.clone();
+            e.truncate(i);
+            case(&mut out, "byte.truncate", &e, None);
+            if i % 7 == 0 {
+                let mut e = enc.clone();
+                e.remove(i);
+                case(&mut out, "byte.remove", &e, None);
+                let mut e = enc.clone();
+                e.insert(i, rng.next() as u8);
+                case(&mut out, "byte.insert", &e, None);
+            }
+        }
+    }
+    // (iii) 9+ length octets and other length oddities
+    for k in [1usize, 2, 7, 8, 9, 10, 16, 100, 126, 127] {
+        for fill in [0x00u8, 0x01, 0xff] {
+            let mut bs = vec![0x30, 0x80 | k as u8];
+            bs.extend(vec![fill; k]);
+            bs.extend([0x02, 0x01, 0x01, 0x61, 0x00]);
+            case(&mut out, "lenoctets", &bs, None);
+            let mut bs2 = vec![0x30, 0x80 | k as u8];
+            bs2.extend(vec![0x00; k - 1]);
+            bs2.push(5);
+            bs2.extend([0x02, 0x01, 0x01, 0x61, 0x00]);
+            case(&mut out, "lenoctets", &bs2, None);
+        }
+    }
+    // (i) random bytes biased to BER-looking headers
+    let nrand = if thorough { 400000 } else { 15000 };
+    for _ in 0..nrand {
+        let n = rng.below(40) as usize;
+        let mut b = rng.bytes(n);
+        if n > 2 && rng.chance(3, 4) {
+            b[0] = *rng.pick(&[0x30u8, 0x30, 0x30, 0x70, 0x10, 0xb0]);
+            b[1] = if rng.chance(1, 2) { (n - 2) as u8 } else { *rng.pick(&[0u8, 1, 5, 0x7f, 0x80, 0x81, 0x82, 0x88, 0x89, 0xff]) };
+            if n > 5 && rng.chance(1, 2) {
+                b[2] = 0x02;
+                b[3] = 0x01;
+            }
+        }
+        case(&mut out, "random", &b, None);
+    }
+    out.finish("random bytes (BER-biased headers), every single-node tree mutation (class, tag number, drop/duplicate/swap child, empty primitive, primitive<->constructed) and every single-octet mutation/truncation of generated valid LDAP messages of all response kinds, 1..127 length octets, nesting depths 1..250000; non-trivial = at least 2 octets; distinct by FNV of the input bytes");
 }
